@@ -116,8 +116,18 @@ theorem inv_step (s : State) (o : Op) (h : Inv s) : Inv (step s o).1 := by
       exact ⟨i, w, by grind, hr⟩
     · exact h4
     · intro m hm
-      obtain ⟨i, w, hw, hr⟩ := h5 m hm
-      exact ⟨i, w, by grind, hr⟩
+      have hold : m ∈ s.closed → ∃ (i : Nat) (w : Wrapper),
+          (s.wrappers ++ [⟨some s.nextStream, k == 0, false⟩])[i]? = some w ∧ w.ms = some m ∧ w.err = true := by
+        intro hm'
+        obtain ⟨i, w, hw, hr⟩ := h5 m hm'
+        exact ⟨i, w, by grind, hr⟩
+      by_cases hk : (k == 0) = true
+      · simp only [hk, if_true] at hm ⊢
+        rcases List.mem_cons.mp hm with rfl | hm'
+        · exact ⟨s.wrappers.length, ⟨some s.nextStream, true, false⟩, by simp, rfl, rfl⟩
+        · simpa [hk] using hold hm'
+      · simp only [hk] at hm
+        exact hold hm
     · intro i w hi
       rcases append_cases hi with ⟨_, rfl⟩ | ⟨_, hi'⟩
       · simp
@@ -276,7 +286,11 @@ theorem returned_mono_step (s : State) (o : Op) (m : Nat) (h : m ∈ s.returned)
 theorem closed_mono_step (s : State) (o : Op) (m : Nat) (h : m ∈ s.closed) :
     m ∈ (step s o).1.closed := by
   cases o with
-  | resolve k => exact h
+  | resolve k =>
+    simp only [step]
+    split
+    · exact List.mem_cons_of_mem _ h
+    · exact h
   | newNil => exact h
   | newErr => exact h
   | accept i =>
